@@ -366,3 +366,17 @@ claim("C34", MTJ,
       "miasm.core.types on a VmMngr region of random bytes; histories of 2..6 writes through MemStruct / MemArray / MemBitField / "
       "MemStr views are recorded (region after each call, value read back, reported address and size) and validated by TLC.",
       "TLC; integers only (no floats); strings after the structure", "DESIGN.md 5/C34", "MemTypes")
+
+LDJ = ("TLA+ statement of what emulator memory must hold after loading an image (Loader.tla: per section / segment mapping, file bytes "
+       "then zero padding, write permission; import slots mapping back to their function) used as the deciding oracle: memory observed "
+       "after the real loaders ran is judged by TLC")
+
+claim("C44", LDJ,
+      "PE images are built with miasm.loader.pe_init (sections with raw size below / equal / above their data, virtual sizes beyond "
+      "the raw data, read-only and writable flags, 0..3 import descriptors with repeated libraries) and 32-bit ELF executables are "
+      "assembled by hand (PT_LOAD segments with zero-filled tails up to several pages, unaligned starts, all flag combinations); "
+      "vm_load_pe + preload_pe / vm_load_elf load them into a fresh VmMngr and TLC requires, per Loader.tla, every section mapped on "
+      "its whole virtual size with file bytes then zeros, the requested write permission, and every import slot holding a stub "
+      "address that maps back to its (library, function).",
+      "TLC; page-aligned PE sections; ELF imports not covered; one recorded known finding (ELF segments always writable)",
+      "DESIGN.md 5/C44", "Loader")
